@@ -43,6 +43,12 @@ var condPool = []CondDef{
 		Expr: &Expr{K: "or", A: &Expr{K: "ge", A: &Expr{K: "param", N: "x"}, B: &Expr{K: "param", N: "y"}}, B: &Expr{K: "eq", A: &Expr{K: "param", N: "y"}, B: &Expr{K: "lit", Ty: "int", V: int64(0)}}}},
 }
 
+func init() {
+	for i := range condPool {
+		condPool[i].Cel = condPool[i].Expr.CEL()
+	}
+}
+
 // relation vocabulary per type; "parent" relations are tupleset relations.
 var relVocab = map[string][]string{
 	"group":  {"member", "admin"},
